@@ -389,8 +389,114 @@ Definition check_append (c : append_case) : bool :=
        let '(k, ks) := o in
        set_eqb (keys (apply_ops nm (mview nm (odflt [] (ac_base c))) (firstn k (ac_ops c)))) ks) (ac_windex c).
 
-Inductive case1 := CStore (c : store_case) | CAppend (c : append_case).
+(* ------------------------------------------------------------------ several writer handles on one archive *)
+(* A history of TarHandler objects opened in mode 'a' on ONE archive.  Each handle keeps its own write position (here:
+   the number of members before it).  What the code does, per event:
+   - open: tarfile positions the handle at the end of the last member;
+   - add_array_to_tar: header + data written AT THE HANDLE'S POSITION and flushed;
+   - close(): tarfile writes the end-of-archive blocks AT THE HANDLE'S POSITION;
+   - the handle object is reclaimed without close() (del, scope exit, gc, interpreter exit): TarHandler has no finaliser and
+     tarfile.TarFile has none either, so NOTHING is written ([fin = false]); a finaliser that calls close() is [fin = true]:
+     a reader then stops at the zero blocks, i.e. sees the members before that position only;
+   - the process is killed: every handle disappears, nothing is written.
+   A handle whose position is no longer the end of the archive (another handle appended meanwhile) and that is USED again
+   (append / close) is two concurrent writers: outside the property and outside this model, [step] answers None. *)
+Section Handles.
+  Variable A : Type.                  (* what an archive is a list of: entries, or members with headers *)
+  Inductive event :=
+  | EvOpen (id : nat)
+  | EvAppend (id : nat) (x : A)
+  | EvClose (id : nat)
+  | EvDrop (id : nat)
+  | EvKill.
+  Record hstate := { hs_disk : option (list A);          (* None = absent or zero-length file *)
+                     hs_handles : list (nat * nat) }.    (* live handle -> its write position *)
+  Definition dlen (d : option (list A)) : nat := List.length (odflt [] d).
+  (* end-of-archive blocks written at position p: what a reader can reach afterwards *)
+  Definition end_at (p : nat) (d : option (list A)) : option (list A) := Some (firstn p (odflt [] d)).
+  Definition step (fin : bool) (s : hstate) (e : event) : option hstate :=
+    match e with
+    | EvOpen id =>
+        match lookup id (hs_handles s) with
+        | Some _ => None
+        | None => Some {| hs_disk := hs_disk s; hs_handles := (id, dlen (hs_disk s)) :: hs_handles s |}
+        end
+    | EvAppend id x =>
+        match lookup id (hs_handles s) with
+        | Some p => if Nat.eqb p (dlen (hs_disk s))
+                    then Some {| hs_disk := Some (odflt [] (hs_disk s) ++ [x]); hs_handles := insert id (S p) (hs_handles s) |}
+                    else None
+        | None => None
+        end
+    | EvClose id =>
+        match lookup id (hs_handles s) with
+        | Some p => if Nat.eqb p (dlen (hs_disk s))
+                    then Some {| hs_disk := end_at p (hs_disk s); hs_handles := remove id (hs_handles s) |}
+                    else None
+        | None => None
+        end
+    | EvDrop id =>
+        match lookup id (hs_handles s) with
+        | Some p => Some {| hs_disk := if fin then end_at p (hs_disk s) else hs_disk s; hs_handles := remove id (hs_handles s) |}
+        | None => None
+        end
+    | EvKill => Some {| hs_disk := hs_disk s; hs_handles := [] |}
+    end.
+  Fixpoint run (fin : bool) (s : hstate) (evs : list event) : option hstate :=
+    match evs with
+    | [] => Some s
+    | e :: r => match step fin s e with Some s' => run fin s' r | None => None end
+    end.
+  (* the completed appends of a history, in order *)
+  Fixpoint appended (evs : list event) : list A :=
+    match evs with
+    | [] => []
+    | EvAppend _ x :: r => x :: appended r
+    | _ :: r => appended r
+    end.
+  Definition hinit (d : option (list A)) : hstate := {| hs_disk := d; hs_handles := [] |}.
+End Handles.
+Arguments EvOpen {A}. Arguments EvAppend {A}. Arguments EvClose {A}. Arguments EvDrop {A}. Arguments EvKill {A}.
+Arguments hs_disk {A}. Arguments hs_handles {A}. Arguments step {A}. Arguments run {A}. Arguments appended {A}.
+Arguments hinit {A}. Arguments dlen {A}. Arguments end_at {A}.
+
+(* a history as the harness drives it through kapture's API (handle = writer session number) *)
+Inductive hev := HOpen (id : nat) | HAppend (id : nat) (n : name) (b : bytes) | HClose (id : nat) | HDrop (id : nat).
+Definition mk_member (nm : name -> name) (n : name) (b : bytes) : member := (nm n, hdr0, PBytes b).
+Definition hev_event (nm : name -> name) (e : hev) : event member :=
+  match e with
+  | HOpen i => EvOpen i
+  | HAppend i n b => EvAppend i (mk_member nm n b)
+  | HClose i => EvClose i
+  | HDrop i => EvDrop i
+  end.
+(* the add_array_to_tar calls of a history, in order *)
+Fixpoint happended (evs : list hev) : log :=
+  match evs with
+  | [] => []
+  | HAppend _ n b :: r => (n, b) :: happended r
+  | _ :: r => happended r
+  end.
+Definition hreader (nm : name -> name) (s : hstate member) : opened :=
+  match hs_disk s with None => OpenFails | Some ms => Opened (mview nm ms) end.
+
+Record history_case := {
+  hc_norm : list (string * string);
+  hc_base : option (list member);              (* the archive before the first handle opens it *)
+  hc_events : list hev;                        (* opens, appends, closes and un-closed handles being reclaimed, in order *)
+  hc_obs : list (nat * opened)                 (* (events done, what a fresh reader saw then) *)
+}.
+Definition check_history (c : history_case) : bool :=
+  let nm := tnorm (hc_norm c) in
+  tnorm_idem (hc_norm c)
+  && forallb (fun o =>
+       match run false (hinit (hc_base c)) (map (hev_event nm) (firstn (fst o) (hc_events c))) with
+       | Some s => opened_eqb (hreader nm s) (snd o)
+       | None => false
+       end) (hc_obs c).
+
+Inductive case1 := CStore (c : store_case) | CAppend (c : append_case) | CHistory (c : history_case).
 Definition case := list case1.
 Definition check1 (c : case1) : bool :=
-  match c with CStore s => check_store s | CAppend a => check_append a end.
+  match c with CStore s => check_store s | CAppend a => check_append a | CHistory h => check_history h end.
 Definition check_case (c : case) : bool := forallb check1 c.
